@@ -534,6 +534,13 @@ func (idx *HNSWIndex) insertNode(node *hnswNode) {
 	// Insert and connect at each layer
 	for lc := node.Level; lc >= 0; lc-- {
 		candidates := idx.searchLayer(node.Vector(), curr, idx.efConstruction, lc)
+		if len(candidates) == 0 && lc == 0 && idx.nodes[curr] != nil {
+			// Every node reachable from the entry point is soft-deleted. Hang the
+			// new node off the closest of them anyway: otherwise nothing would
+			// link to it and no search could ever reach it.
+			d := idx.distance.Calculate(node.Vector(), idx.nodes[curr].Vector())
+			candidates = []candidate{{id: curr, distance: d}}
+		}
 
 		M := idx.M
 		if lc == 0 {
@@ -592,6 +599,11 @@ func (idx *HNSWIndex) searchLayer(query []float32, entryPoint uint32, ef int, la
 		d := idx.distance.Calculate(query, idx.nodes[entryPoint].Vector())
 		heap.Push(candidates, candidate{id: entryPoint, distance: d})
 		heap.Push(result, candidate{id: entryPoint, distance: d})
+	} else if ep := idx.nodes[entryPoint]; ep != nil {
+		// A soft-deleted entry point is never reported, but the walk still has
+		// to start from it: its neighbours may be live.
+		d := idx.distance.Calculate(query, ep.Vector())
+		heap.Push(candidates, candidate{id: entryPoint, distance: d})
 	}
 	visited.Add(entryPoint)
 
@@ -607,10 +619,9 @@ func (idx *HNSWIndex) searchLayer(query []float32, entryPoint uint32, ef int, la
 		node := idx.nodes[current.id]
 		if layer < len(node.Edges) {
 			for _, neighborID := range node.Edges[layer] {
-				// SOFT DELETE CHECK: Skip deleted neighbors
-				if idx.deletedNodes.Contains(neighborID) {
-					continue
-				}
+				// SOFT DELETE CHECK: deleted neighbors are walked through (live
+				// vectors may only be reachable via them) but never reported
+				deleted := idx.deletedNodes.Contains(neighborID)
 
 				if !visited.Contains(neighborID) {
 					visited.Add(neighborID)
@@ -619,6 +630,9 @@ func (idx *HNSWIndex) searchLayer(query []float32, entryPoint uint32, ef int, la
 
 					if result.Len() < ef || d < (*result)[0].distance {
 						heap.Push(candidates, candidate{id: neighborID, distance: d})
+						if deleted {
+							continue
+						}
 						heap.Push(result, candidate{id: neighborID, distance: d})
 
 						if result.Len() > ef {
